@@ -39,7 +39,7 @@ struct Limits : Profile {
     std::vector<std::string> required_probes() const override
     {
         return {"reserve-near-limit", "beyond-limit-refused", "far-write", "ref-65535", "refs-exhausted", "members-65535", "member-65536-refused", "order-over-limit-refused",
-                "fields-257-refused", "long-name-vdata", "long-name-sds", "rank-33-refused", "sds-bytes-over-limit", "open-table-full", "reopen", "canaries-checked", "append-near-limit", "recsize-with-predefined-field", "seekfar-fits", "seekfar-over", "long-name-refused-on-named-vgroup"};
+                "fields-257-refused", "long-name-vdata", "long-name-sds", "rank-33-refused", "sds-bytes-over-limit", "open-table-full", "reopen", "canaries-checked", "append-near-limit", "recsize-with-predefined-field", "seekfar-fits", "seekfar-over", "long-name-refused-on-named-vgroup", "records-of-tens-of-megabytes", "long-field-name-in-a-list"};
     }
 
     Plan generate(Rng &rng, bool thorough, uint64_t) override
@@ -53,8 +53,8 @@ struct Limits : Profile {
         int n           = (int)r.range(8, thorough ? 40 : 30);
         static const int64_t lens[] = {63, 64, 65, 66, 127, 128, 129, 255, 256, 257, 1000, 70000};
         static const std::vector<int> w = {/*reserve*/ 14, /*farwrite*/ 6, /*small*/ 8, /*hlbig*/ 5, /*ref65535*/ 5, /*newrefs*/ 8, /*exhaust*/ 1, /*members*/ 4,
-                                           /*order*/ 6,    /*nfields*/ 5,  /*recsize*/ 4, /*name*/ 16, /*rank*/ 4,    /*sdbig*/ 6,    /*hopen*/ 2,   /*sdopen*/ 3, /*reopen*/ 5, /*appendfar*/ 6, /*seekfar*/ 5};
-        static const char *names[] = {"reserve", "farwrite", "small", "hlbig", "ref65535", "newrefs", "exhaust", "members", "order", "nfields", "recsize", "name", "rank", "sdbig", "hopen", "sdopen", "reopen", "appendfar", "seekfar"};
+                                           /*order*/ 6,    /*nfields*/ 5,  /*recsize*/ 4, /*name*/ 16, /*rank*/ 4,    /*sdbig*/ 6,    /*hopen*/ 2,   /*sdopen*/ 3, /*reopen*/ 5, /*appendfar*/ 6, /*seekfar*/ 5, /*sdrecbig*/ 3};
+        static const char *names[] = {"reserve", "farwrite", "small", "hlbig", "ref65535", "newrefs", "exhaust", "members", "order", "nfields", "recsize", "name", "rank", "sdbig", "hopen", "sdopen", "reopen", "appendfar", "seekfar", "sdrecbig"};
         for (int i = 0; i < n; i++) {
             int k = r.weighted(w);
             if (k == 6 && !thorough && !r.chance(0.3))
@@ -105,6 +105,9 @@ struct Limits : Profile {
                     break;
                 case 15:
                     p.ops.push_back(mkop(0, names[k], {r.range(-3, 6)}));
+                    break;
+                case 19: // which record size, how many records
+                    p.ops.push_back(mkop(0, names[k], {(int64_t)r.below(4), r.range(1, 3)}));
                     break;
                 case 18: // slack around the limit, length of the write
                     p.ops.push_back(mkop(0, names[k], {r.range(-4, 4), r.chance(0.5) ? 100 : r.range(1, 300), (int64_t)r.below(2)}));
@@ -470,6 +473,48 @@ struct Limits : Profile {
                     check_smalls(s, "appends near the limit");
                     ctx.probe("append-near-limit");
                 }
+            }
+            else if (k == "sdrecbig") {
+                // an unlimited dataset whose single record is tens of megabytes long (legal: far below 2^31): the block size the
+                // library derives from the record length (length x 64) must not wrap.  Only the first cells of each record are
+                // written, in no-fill mode, into a file of its own.
+                static const int32 cells[4] = {8388609, 10000000, 16777217, 33554433}; // x 4 bytes: 2^25+4, 40e6, 2^26+4, 2^27+4
+                int32       dims[2] = {SD_UNLIMITED, cells[modn(o.arg(0), 4)]};
+                int         nrec    = (int)std::max<int64_t>(1, std::min<int64_t>(3, o.arg(1)));
+                std::string bf      = strf("/sim/lim_sdrec_%d.hdf", s.seq);
+                int32       bsd     = SDstart(bf.c_str(), DFACC_CREATE);
+                if (bsd == FAIL)
+                    ctx.fail("unusable", "unusable:sdstart", "SDstart(create) failed");
+                SDsetfillmode(bsd, SD_NOFILL);
+                int32 id = SDcreate(bsd, "recbig", DFNT_INT32, 2, dims);
+                if (id == FAIL)
+                    ctx.fail("unusable", "unusable:SDcreate-recbig", strf("SDcreate refuses an unlimited dataset with records of %d int32 values: %s", (int)dims[1], herr().c_str()));
+                int32 v[250];
+                for (int rr = 0; rr < nrec; rr++) {
+                    int32 st[2] = {rr, 0}, ed[2] = {1, 250};
+                    for (int q = 0; q < 250; q++)
+                        v[q] = rr * 1000 + q + s.seq;
+                    if (SDwritedata(id, st, NULL, ed, v) == FAIL)
+                        ctx.fail("unusable", "unusable:SDwritedata-recbig", strf("writing the start of record %d (records of %lld bytes) is refused: %s", rr, (long long)dims[1] * 4, herr().c_str()));
+                }
+                if (SDendaccess(id) == FAIL || SDend(bsd) == FAIL)
+                    ctx.fail("unusable", "unusable:sdend-recbig", strf("closing a file with %d records of %lld bytes fails: %s", nrec, (long long)dims[1] * 4, herr().c_str()));
+                scan_sparse(s, bf, "after closing a file with huge records");
+                bsd = SDstart(bf.c_str(), DFACC_READ);
+                int32 ix = bsd == FAIL ? FAIL : SDnametoindex(bsd, "recbig"), id2 = ix == FAIL ? FAIL : SDselect(bsd, ix);
+                char  nm[256];
+                int32 rank = 0, dm[H4_MAX_VAR_DIMS], nt = 0, na = 0, got[250];
+                if (id2 == FAIL || SDgetinfo(id2, nm, &rank, dm, &nt, &na) == FAIL)
+                    ctx.fail("unusable", "unusable:sdstart-recbig", "the file with huge records does not open again");
+                if (dm[0] != nrec)
+                    ctx.fail("wrapped", "wrapped:recbig-count", strf("%d records of %lld bytes were written, %d are there after reopen", nrec, (long long)dims[1] * 4, (int)dm[0]));
+                int32 st[2] = {nrec - 1, 0}, ed[2] = {1, 250};
+                if (SDreaddata(id2, st, NULL, ed, got) == FAIL || memcmp(got, v, sizeof got) != 0)
+                    ctx.fail("wrapped", "wrapped:recbig-data", strf("the start of record %d (records of %lld bytes) does not read back after reopen", nrec - 1, (long long)dims[1] * 4));
+                SDendaccess(id2);
+                SDend(bsd);
+                simfs::disk().erase(bf);
+                ctx.probe("records-of-tens-of-megabytes");
             }
             else if (k == "seekfar") {
                 // an appendable element at the end of a file of its own: a seek far beyond its end and a write there.  The write
@@ -837,6 +882,27 @@ struct Limits : Profile {
                     }
                     VSdetach(vs);
                     ctx.probe("long-name-field");
+                    {
+                        // the same name inside a list: before and behind a short one it is treated as it is alone
+                        // (one new vdata per call: the field list of a vdata that is being written is set once)
+                        auto tryset = [&](const std::string &list) {
+                            int32 v2 = VSattach(s.fid, -1, "w");
+                            intn  ok = VSfdefine(v2, nm.c_str(), DFNT_UINT8, 1) != FAIL && VSfdefine(v2, "zq", DFNT_UINT8, 1) != FAIL ? VSsetfields(v2, list.c_str()) : -2;
+                            VSdetach(v2);
+                            return ok;
+                        };
+                        int32 v2 = VSattach(s.fid, -1, "w");
+                        intn  ra = VSfdefine(v2, nm.c_str(), DFNT_UINT8, 1), rb = VSfdefine(v2, "zq", DFNT_UINT8, 1);
+                        if (ra != FAIL && rb != FAIL && nm.find(',') == std::string::npos) {
+                            intn alone = tryset(nm), first = tryset(nm + ",zq"), last = tryset("zq," + nm);
+                            if ((alone == FAIL) != (first == FAIL) || (alone == FAIL) != (last == FAIL))
+                                ctx.fail("name-mangled", "name-mangled:field-in-list",
+                                         strf("a field name of %zu characters: VSsetfields alone %s, first in a list %s, last in a list %s", nm.size(), alone == FAIL ? "fails" : "works",
+                                              first == FAIL ? "fails" : "works", last == FAIL ? "fails" : "works"));
+                            ctx.probe("long-field-name-in-a-list");
+                        }
+                        VSdetach(v2);
+                    }
                 }
                 else if (which == 5 || which == 6 || which == 7) { // SDS, dimension, attribute names
                     int32 dims[1] = {2};
